@@ -46,6 +46,7 @@ func invokeName(v ssa.Value) (iface, method string, ok bool) {
 }
 
 func c04(c *Ctx) {
+	defer c.requestOrderIsKept("R04.7")
 	P, R := c.P, c.R
 	R.Explain("R04.1", "schema: the per-mailbox message table template declares uid INTEGER PRIMARY KEY AUTOINCREMENT and mailboxes_v2.id likewise (checked on the tables SQLite builds from the extracted DDL): UIDs and table names are never reused, also after deleting the highest row.")
 	R.Explain("R04.2", "no extracted statement writes the uid column of a message table, uses REPLACE on it, or writes sqlite_sequence; DROP TABLE of a message table occurs only in DeleteMailboxWithRemoteID.")
@@ -347,4 +348,68 @@ func sameOrPhi(a, b ssa.Value) bool {
 		}
 	}
 	return false
+}
+
+
+// requestOrderIsKept (R04.7): the lists of a COPY / MOVE / APPEND are not reordered behind the caller's back.
+func (c *Ctx) requestOrderIsKept(rule string) {
+	P, R := c.P, c.R
+	R.Explain(rule, "the UIDs announced are the UIDs the messages get: Mailbox.Copy / Move pair the ascending source UIDs with the ascending destination UIDs, which is right only while the destination UIDs are handed out in the order of the list that was passed down.  In internal/state and internal/backend no function permutes a slice it received as a parameter in place - sort.Slice/Sort/Stable, slices.Sort*/Reverse, xslices.Partition/Reverse, rand.Shuffle applied to a value whose producers lead back to a slice parameter (sub-slices included; a clone or a freshly built slice is fine).  An in-place partition of the request list (to split off the messages the destination already has) inserts the rest in another order, and COPYUID names the wrong destination UIDs.")
+	permuter := func(sc *ssa.Function) bool {
+		if sc == nil {
+			return false
+		}
+		if o := sc.Origin(); o != nil {
+			sc = o
+		}
+		switch engine.PkgPathOf(sc) {
+		case "sort", "slices", "golang.org/x/exp/slices", "github.com/bradenaw/juniper/xslices", "math/rand":
+		default:
+			return false
+		}
+		switch sc.Name() {
+		case "Sort", "SortFunc", "SortStableFunc", "Slice", "SliceStable", "Stable", "Reverse", "Partition", "Shuffle":
+			return true
+		}
+		return false
+	}
+	seenAll, judged := 0, 0
+	for _, f := range c.productFuncs() {
+		rel := engine.RelPkg(P.OwnPkgPath(f))
+		for _, cs := range engine.Calls(f) {
+			if cs.Instr.Parent() != f || !permuter(cs.Common().StaticCallee()) || len(cs.Common().Args) == 0 {
+				continue
+			}
+			seenAll++
+			if rel != "internal/state" && rel != "internal/backend" {
+				continue
+			}
+			judged++
+			arg := cs.Common().Args[0]
+			if mi, ok := arg.(*ssa.MakeInterface); ok {
+				arg = mi.X
+			}
+			var par *ssa.Parameter
+			engine.Backward(arg, engine.FlowOpts{Loads: true}, func(x ssa.Value) bool {
+				if p, ok := x.(*ssa.Parameter); ok {
+					if _, isSlice := p.Type().Underlying().(*types.Slice); isSlice {
+						par = p
+					}
+					return false
+				}
+				return true
+			})
+			why := ""
+			if par != nil {
+				why = "parameter " + par.Name() + " of " + c.name(par.Parent())
+			}
+			pn := cs.Common().StaticCallee()
+			if o := pn.Origin(); o != nil {
+				pn = o
+			}
+			R.Check(par == nil, rule, c.name(f)+"|"+pn.Name()+" on own data only", P.Pos(cs.Pos()), "the permuted slice is built locally", "a slice the function was handed ("+why+") is permuted in place: the caller's list - and the order in which its messages are inserted and given UIDs - changes behind the caller's back, so the UIDs announced in COPYUID / APPENDUID are paired with the wrong messages")
+		}
+	}
+	R.Check(true, rule, "internal/state, internal/backend|in-place permutations judged", "-", fmtf("%d of %d permuting calls in the tree lie in these packages", judged, seenAll), "")
+	R.Min(rule, "in-place permuting calls found in the tree (positive examples of the pattern)", seenAll, 3)
 }
